@@ -374,9 +374,52 @@ func r2tEffects(l *mbLib, im *mbImpl, recv types.Object, n ast.Node, depth int, 
 		return
 	}
 	info := l.info
+	// rootOfLocal: a local defined (once, inside n) by a lookup in receiver storage: the storage expression
+	rootOfLocal := func(id *ast.Ident) ast.Expr {
+		o := r2tObj(info, id)
+		if o == nil || o == recv {
+			return nil
+		}
+		var def ast.Expr
+		cnt := 0
+		ast.Inspect(n, func(m ast.Node) bool {
+			if as, ok := m.(*ast.AssignStmt); ok {
+				for i, lh := range as.Lhs {
+					if r2tObj(info, lh) == o {
+						cnt++
+						if len(as.Rhs) == len(as.Lhs) {
+							def = as.Rhs[i]
+						} else if i == 0 && len(as.Rhs) == 1 {
+							def = as.Rhs[0] // v, ok := m[k]
+						}
+					}
+				}
+			}
+			return true
+		})
+		if cnt != 1 {
+			return nil
+		}
+		return def
+	}
 	record := func(lhs ast.Expr, pos token.Pos) {
 		e := ast.Unparen(lhs)
 		deref, indexed := false, false
+		// `*cell = v` where cell is a *Value taken from the storage: the existing cell is overwritten in
+		// place (every alias of the cell — an option handed out earlier, another container — sees it)
+		cellWrite := false
+		if st, ok := e.(*ast.StarExpr); ok && l.isValuePtr(info.TypeOf(st.X)) {
+			inner := ast.Unparen(st.X)
+			if id, ok := inner.(*ast.Ident); ok {
+				if def := rootOfLocal(id); def != nil {
+					inner = ast.Unparen(def)
+				}
+			}
+			if _, isIx := inner.(*ast.IndexExpr); isIx {
+				cellWrite = true
+				e = inner
+			}
+		}
 		for {
 			switch x := e.(type) {
 			case *ast.ParenExpr:
@@ -409,6 +452,8 @@ func r2tEffects(l *mbLib, im *mbImpl, recv types.Object, n ast.Node, depth int, 
 		_, isMap := fv.Type().Underlying().(*types.Map)
 		_, isSlice := fv.Type().Underlying().(*types.Slice)
 		switch {
+		case cellWrite:
+			how = "cell-overwrite"
 		case isPtr && deref:
 			how = "through-pointer"
 		case isMap && indexed:
